@@ -2,14 +2,6 @@ import ShexerModel.Generated
 /-! Configuration of one extraction, after `Shaper.__init__` has normalised its arguments. -/
 namespace Shexer
 
-/-- cardinality of a statement: Python `int`, `"+"`, `"*"`, `"?"` -/
-inductive Card
-  | exact (k : Nat)
-  | plus
-  | star
-  | opt
-deriving DecidableEq, Repr, Inhabited
-
 structure Config where
   instProp : String := "http://www.w3.org/1999/02/22-rdf-syntax-ns#type"
   allClasses : Bool := false
